@@ -330,6 +330,21 @@ def rule_lazy(repo, rule):
     accept_true = {"%s.lc" % cond}
     accept_false = {"(~%s).lc" % cond, "1 - %s" % cond, "1 - %s.lc" % cond, "(1 - %s)" % cond,
                     "LinComb.ONE - %s" % cond, "LinComb.ONE_SAFE - %s.lc" % cond}
+    # guarded() / add_guard() may take the typed Boolean itself and unwrap it: `if isinstance(c, LinCombBool): c = c.lc` as the
+    # first thing done with the condition
+    unwraps = False
+    for gname in ("guarded", "add_guard"):
+        gf = repo.module("pysnark.runtime").functions.get(gname)
+        if gf is None or not gf.params:
+            continue
+        c0 = gf.params[0]
+        for s_ in gf.node.body:
+            if isinstance(s_, ast.If) and norm(s_.test) in ("isinstance(%s, LinCombBool)" % c0, "isinstance(%s, boolean.LinCombBool)" % c0) \
+                    and len(s_.body) == 1 and norm(s_.body[0]) == "%s = %s.lc" % (c0, c0) and not s_.orelse:
+                unwraps = True
+    if unwraps:
+        accept_true.add(cond)
+        accept_false |= {"~%s" % cond, "(~%s)" % cond}
     for call, gexpr, branch in sites:
         btxt = norm(branch)
         from ..flatten import resolve_locals as _rl7
@@ -343,7 +358,7 @@ def rule_lazy(repo, rule):
         is_true_branch = btxt == fi.params[1]
         accept = accept_true if is_true_branch else accept_false
         problems = []
-        if kinds and not kinds <= {"LC", "int", "bool"}:
+        if kinds and not kinds <= ({"LC", "int", "bool", "LCB"} if unwraps else {"LC", "int", "bool"}):
             problems.append("guard expression has kind %s; add_guard accepts LinComb or int only" % "|".join(sorted(kinds)))
         if gtxt not in accept:
             problems.append("`%s` is not %s of the condition" % (
